@@ -7,7 +7,9 @@ import CoupeModel.Driver.Util
 * `part …` / `dual …`: the model's claim is "the same for every pool size and
   run"; the op line carries the digest of the outcome under one thread and the
   driver echoes `same <digest>`.  The implementation prints `differs …` when any
-  pool size or repetition deviates.
+  pool size or repetition deviates.  Stream `t` (Rcb only): rounded-distance ties across block
+  seams (defect N11, fixed by /repo f4e2819) – the claim is the same, now backed without exact
+  distances by `Props/C06b.lean: rcb_bb_schedule_free_rounded`.
 * `frame …`: the frame (matrix and rotated points) of a large near-isotropic cloud is a function
   of the input only; the op line carries the digest under one thread, the driver echoes it.
 * `parsum`, `bbox`, `rcbsplit`, `mjsplit`: the skeletons of `Model/Par.lean` are
@@ -234,7 +236,7 @@ def handle (toks : List String) : String :=
   match toks with
   | "part" :: algo :: stream :: rest =>
     if rest.length == 8 ∧ ["rcb", "rcbf", "rib", "hilbert", "zcurve", "mj", "kmeans"].contains algo ∧
-        (stream == "g" ∨ stream == "x") ∧ (rest.take 7).all (fun x => (parseNat? x).isSome) ∧
+        (stream == "g" ∨ stream == "x" ∨ (stream == "t" ∧ (algo == "rcb" ∨ algo == "rcbf"))) ∧ (rest.take 7).all (fun x => (parseNat? x).isSome) ∧
         (rest.head? == some "2" ∨ rest.head? == some "3") then
       -- outside `ExactSums` (the frame is built from sums that round, K6): no claim
       if rest.getLast!.startsWith "inexact-frame:" then "skip outside-ExactSums inexact OBB frame"
